@@ -221,7 +221,26 @@ def lower_L4(src, steps):
 
 lower_L4.needed_for_build = True
 
-LOWERINGS = {"L2": lower_L2, "L4": lower_L4}
+
+def lower_L5(src, steps):
+    """L5: cut the condition that guards PossibleMITM out of cssp_connect into fn mitm_detected(reply, key)."""
+    txt = open(os.path.join(src, "src", "nla", "cssp.rs")).read()
+    ms = list(re.finditer(r"if (BigUint::from_bytes_le\(&inc_pub_key\)[^{]*?) \{\s*return Err\(Error::RdpError\(RdpError::new\(RdpErrorKind::PossibleMITM", txt))
+    if len(ms) != 1:
+        raise Inconclusive("ENCODING-FAILED: lowering L5: the PossibleMITM condition in cssp_connect was not found exactly once (%d)" % len(ms))
+    cond = ms[0].group(1)
+    n = cond.count("certificate.tbs_certificate.subject_pki.subject_public_key.data")
+    if n != 1:
+        raise Inconclusive("ENCODING-FAILED: lowering L5: certificate key path occurs %d times in the condition" % n)
+    cond2 = cond.replace("certificate.tbs_certificate.subject_pki.subject_public_key.data", "key").replace("&inc_pub_key", "inc_pub_key")
+    with open(os.path.join(src, "verif_harness", "cssp_gate.rs"), "w") as f:
+        f.write("// extracted by L5 from cssp_connect: `if %s { return Err(PossibleMITM) }`\npub fn mitm_detected(inc_pub_key: &[u8], key: &[u8]) -> bool {\n    %s\n}\n" % (cond, cond2))
+    steps.append("L5 extracted the PossibleMITM condition: %s" % cond)
+
+
+lower_L5.needed_for_build = True
+
+LOWERINGS = {"L2": lower_L2, "L4": lower_L4, "L5": lower_L5}
 
 
 # --------------------------------------------------------------------------
@@ -737,7 +756,7 @@ def write_evidence(prop, tier, seed, jobs, results, steps, confirmed, inconclusi
         "seed": seed,
         "level": "model_checking",
         "coverage": {
-            "evaluations": len(jobs),
+            "evaluations": sum(1 if j.kind == "kani" else max(1, results.get(j.name, {}).get("obligations", 1)) for j in jobs),
             "distinct_nontrivial": nontrivial,
             "rule": "one evaluation = one solver-decided harness (Kani/CBMC bounded model checking of the compiled rdp-rs code with "
                     "kani::any() inputs) or one MIR-derived SMT/fixedpoint query; non-trivial = verdict obtained AND every "
